@@ -298,8 +298,13 @@ class PandasCheckBackend(BaseCheckBackend):
         failure_cases_list: List[pd.DataFrame] = []
         for i, col in enumerate(select_failure_cases.columns):
             # select by position: column labels may be repeated
+            # cast to object: the failure cases are aggregated into dicts
+            # below, which extension dtypes such as pyarrow cannot hold
             cases = (
-                select_failure_cases.iloc[:, i].rename("failure_case").dropna()
+                select_failure_cases.iloc[:, i]
+                .rename("failure_case")
+                .dropna()
+                .astype(object)
             )
             if len(cases) == 0:
                 continue
